@@ -81,4 +81,31 @@ LEVEL.update({
                 note=ENV_NOTE),
 })
 
+SIM_NOTE = (ENV_NOTE + " Translated parts (runner.rs loop bodies, derive-macro template) are regenerated from /repo on every run by "
+            "translate/*.py (a narrow tokenizer-based translator: trusted); a source shape outside its grammar is reported as a broken obligation.")
+
+ENGINES.append({"name": "sim", "path": "checklib/sim.py + harness/src/{sim,agents,shapes}.rs + translate/", "serves_properties": ["C09", "C16", "C17", "C20"],
+                "kind_free_text": "Lean 4 theorems about the runner fold, RandomAgents (exact integer model), the momentum decision skeleton over "
+                                  "exact rationals and the derive-macro template (translated from source each run); real simulations compared with the "
+                                  "Lean model run, cross-run/cross-process digests, per-instruction audits of the real agents"})
+
+LEVEL.update({
+    "C09": dict(engine="sim", design_ref="DESIGN.md 6/C09",
+                technique="Lean 4 theorems (runner is a fold threading one generator; both progress-bar branches, translated from runner.rs each run, are the same loop) + bit-exact prediction of real RandomAgents simulations by the Lean model + cross-run / cross-process digests",
+                text="runner_branches_equal (by decide on the translated source), simLoop_add (a run is a fold: n+m steps = n then m from the state left), run_deterministic. Per run the Lean model (generator, agents, environment, book) predicts complete real simulations of RandomAgents compositions bit-for-bit; all agent types are run twice, with/without progress bar, derived vs hand-written and in a separate OS process and must agree. PARTIAL: runtime nondeterminism cannot be exhibited by a model.",
+                note=SIM_NOTE),
+    "C16": dict(engine="sim", design_ref="DESIGN.md 6/C16",
+                technique="Lean 4 theorems (RandomAgents instructions valid for all generator states, gen_range bounds, probability 0/>=1 corners, grid repair) + instruction-level audit of the real agents on a moving market",
+                text="random_update_valid (every instruction of a random agent is a no-op, a cancel of its own Active order or one on-grid in-range order), genRange_lt, act_p0_never, act_p1_always, sell_price_repair for all inputs; per run every instruction emitted by the real random/noise/momentum agents (single/multi-asset, tick 1..10, sigma up to 10, 1..200 steps) is audited and aborts are caught. PARTIAL on floats (sampling and rounding are audited, not proved).",
+                note=SIM_NOTE),
+    "C17": dict(engine="sim", design_ref="DESIGN.md 6/C17",
+                technique="Lean 4 theorems over exact rationals (mirroring a path negates every momentum signal; decision at -M is the side-mirror; probability even in M for any odd tanh) + exact evaluation of the documented rule on real saturated runs and mirrored-run comparison",
+                text="momentum_mirror, pMarket_even, decide_mirror, direction_follows_sign, saturated_always_acts for all paths/decays/draws, over an abstract odd tanh. Per run the real agents are driven on harness-quoted paths; the rule is evaluated exactly on the mids they observed and the mirrored path must give the mirrored flow. PARTIAL on floats (tanh idealised as odd).",
+                note=SIM_NOTE + " Props/C17 imports three Mathlib modules."),
+    "C20": dict(engine="sim", design_ref="DESIGN.md 6/C20",
+                technique="Lean 4 theorems on the macro template translated from source each run (one update per named field in declaration order; derived = fold over leaves in preorder, nested sets included) + compiled struct shapes with probe agents vs hand-written sequence vs model prediction",
+                text="template_is_model (decide on the translated macro source), derive_calls, derived_eq_handwritten (mutual induction over nested sets), probeDraws_log. Per run 40 struct shapes (both macros, 1-8 fields, nested, non-alphabetical names, with/without trailing comma) compiled with the real macros are compared call-by-call and draw-by-draw with the hand-written sequence and with the Lean prediction.",
+                note=SIM_NOTE),
+})
+
 NOT_YET = {}
